@@ -11,6 +11,7 @@ import Goat.Driver.CF
 import Goat.Driver.Call
 import Goat.Driver.Slice
 import Goat.Driver.Str
+import Goat.Driver.Print
 /-! goatmodel: one operation per input line, one canonical output line per operation. -/
 open Goat.Driver
 
@@ -19,6 +20,7 @@ structure DriverState where
   scope : Goat.Scope.C := {}
   imap : IMapState := {}
   slice : SliceState := {}
+  heap : Goat.Print.Heap := []
 
 def step (st : DriverState) (line : String) : DriverState × String :=
   match (line.trimAscii.toString.splitOn " ").filter (· ≠ "") with
@@ -28,6 +30,7 @@ def step (st : DriverState) (line : String) : DriverState × String :=
   | "tsort" :: args => (st, tsortCmd args)
   | "opt" :: args => (st, optCmd args)
   | "str" :: args => (st, strCmd args)
+  | "print" :: args => let (h, o) := printCmd st.heap args; ({ st with heap := h }, o)
   | "slice" :: args => let (s, o) := sliceCmd st.slice args; ({ st with slice := s }, o)
   | "call" :: args => (st, callCmd args)
   | "cf" :: args => (st, cfCmd args)
